@@ -49,6 +49,8 @@ pub struct Session {
     /// every publishDiagnostics notification read so far, in order
     pub published: Vec<Value>,
     pub dir: PathBuf,
+    /// `capabilities.positionEncoding` of the initialize result
+    pub announced_encoding: Option<String>,
     main: Option<tokio::task::JoinHandle<String>>,
 }
 
@@ -68,6 +70,11 @@ pub fn uri_of(path: &Path) -> String {
 impl Session {
     /// Starts a server and performs the initialize handshake.
     pub fn start(dir: &Path) -> Result<Session, SessionError> {
+        Session::start_with(dir, None)
+    }
+
+    /// The same for a client that lists the position encodings it supports (LSP 3.17 `general.positionEncodings`).
+    pub fn start_with(dir: &Path, client_encodings: Option<&[&str]>) -> Result<Session, SessionError> {
         // the main loop runs on the harness thread (inside block_on): no cross-thread hop per message
         let rt = tokio::runtime::Builder::new_current_thread()
             .max_blocking_threads(4)
@@ -97,9 +104,15 @@ impl Session {
             publications_read: 0,
             published: Vec::new(),
             dir: dir.to_path_buf(),
+            announced_encoding: None,
             main: Some(main),
         };
-        s.request("initialize", json!({ "capabilities": {}, "processId": null, "rootUri": null }))?;
+        let capabilities = match client_encodings {
+            Some(list) => json!({ "general": { "positionEncodings": list } }),
+            None => json!({}),
+        };
+        let result = s.request("initialize", json!({ "capabilities": capabilities, "processId": null, "rootUri": null }))?;
+        s.announced_encoding = result["capabilities"]["positionEncoding"].as_str().map(|x| x.to_string());
         s.send(json!({ "jsonrpc": "2.0", "method": "initialized", "params": {} }))?;
         Ok(s)
     }
